@@ -60,9 +60,39 @@ def plan_from_path(path, nodes, init_id):
     return steps
 
 
+def normalise_log(log, T, N):
+    """`ret x` is logged when next() has returned, but the hand-out of the following task happens inside that call:
+    a worker may log `start y` before the consumer logs the `ret` that enabled it. Item Wn + k is handed out by
+    the k-th call of next(), so such a start is moved right behind that ret (linearization point of the call)."""
+    wn = min(T, N)
+    out, deferred, rets = [], [], 0
+    for l in log:
+        if l[0] == "start" and int(l[1]) - wn > rets:
+            deferred.append(l)
+            continue
+        out.append(l)
+        if l[0] == "ret":
+            rets += 1
+            keep = []
+            for d in deferred:
+                if int(d[1]) - wn <= rets:
+                    out.append(d)
+                else:
+                    keep.append(d)
+            deferred = keep
+    return out + deferred
+
+
 def judge_log(log, T, N, panics, drop) -> list[tuple[str, str]]:
     """Property-level judgement of one run of the real parallel_map (independent of the model)."""
     bad = []
+    log = normalise_log(log, T, N)
+    full = log
+    # the consumer stops at the first exception: what a plan does after "ret panic" is outside normal iteration
+    for i, l in enumerate(log):
+        if l[0] == "ret" and l[1] == "panic":
+            log = log[:i + 1] + [x for x in log[i + 1:] if x[0] in ("dropping", "joined", "hang")]
+            break
     rets = [l[1] for l in log if l[0] == "ret"]
     vals = [int(x) for x in rets if x not in ("none", "panic")]
     if vals != list(range(1, len(vals) + 1)):
@@ -236,6 +266,7 @@ def run(ctx: Ctx) -> None:
                 ctx.violation(sig, f"parallel_map T={T} N={N} panics={panics} drop_after={drop}: {what}",
                               {"T": T, "N": N, "steps": steps, "panics": panics, "drop": drop,
                                "log": [" ".join(l) for l in log]})
+            log = normalise_log(log, T, N)
             ev = [{"op": ("retpanic" if l[0] == "ret" and l[1] == "panic" else l[0]),
                    "x": (0 if l[1] in ("none", "panic") else int(l[1])) if len(l) > 1 else 0}
                   for l in log if l[0] in ("start", "finish", "panicking", "ret", "dropping", "joined")]
